@@ -4,7 +4,10 @@ import (
 	"fmt"
 	"math/rand"
 	"strings"
+	"sync/atomic"
 )
+
+var poolHangs atomic.Int64
 
 // pool slice (property C12: "Client always terminates cleanly: one error, no leaked goroutines").
 //
@@ -56,7 +59,15 @@ func (r *poolRunner) Step(line string) []string {
 		if r.scn == nil || len(ws) != 1 {
 			return []string{"bad-op"}
 		}
+		// a change that wedges the client wedges EVERY scenario for the length of the watchdogs: after a few
+		// hangs in this process the remaining scenarios are not run (the run is red already)
+		if poolHangs.Load() >= 4 {
+			return []string{"run skipped-after-hangs"}
+		}
 		res := poolRunInChild(r.scn)
+		if strings.Contains(res.line, "result=hang") || strings.HasPrefix(res.line, "run child-timeout") {
+			poolHangs.Add(1)
+		}
 		r.fails = append(r.fails, poolOracle(r.scn, res)...)
 		return []string{res.line}
 	}
